@@ -1,6 +1,7 @@
 package checks
 
 import (
+	"bytes"
 	"fmt"
 	"strings"
 
@@ -142,6 +143,46 @@ func enumEAN(c *core.Ctx, all8 bool, family3 bool) {
 						}
 					}
 				}
+			}
+		}
+	}
+	// every value the weighted digit sum can take (EAN-13: 0..216, EAN-8: 0..135), reached with heavy and
+	// with light digits: the check digit is a function of that sum only
+	for _, n := range []int{12, 7} {
+		weight := func(i int) int { // weight of position i (0-based) of the data digits
+			if (n-i)%2 == 1 {
+				return 3
+			}
+			return 1
+		}
+		maxSum := 0
+		for i := 0; i < n; i++ {
+			maxSum += 9 * weight(i)
+		}
+		for target := 0; target <= maxSum; target++ {
+			for variant := 0; variant < 2; variant++ {
+				b := bytes.Repeat([]byte("0"), n)
+				rest := target
+				order := make([]int, n)
+				for i := range order {
+					order[i] = i
+					if variant == 1 {
+						order[i] = n - 1 - i
+					}
+				}
+				// greedy: fill positions (in the variant's order) with the largest digit that still fits
+				for _, i := range order {
+					d := rest / weight(i)
+					if d > 9 {
+						d = 9
+					}
+					b[i] = byte('0' + d)
+					rest -= d * weight(i)
+				}
+				if rest != 0 {
+					continue // not reachable in this order (a remainder below the weight)
+				}
+				emit(b)
 			}
 		}
 	}
